@@ -1,7 +1,7 @@
 SPECIFICATION Spec
 CONSTANTS
   Slots = {1, 2}
-  Kinds = {"slp", "hyp", "idt", "pot", "fmm"}
+  Kinds = {"slp", "hyp", "idt", "pot", "fmm", "mhyp"}
   RegVals = {1, 4}
   SingVals = {3, 4}
   MassCacheKeyed = TRUE
